@@ -8,7 +8,7 @@ LEVEL = "model_checking"
 
 def classify(rec, verdict):
     cls = {"verdict": verdict, "fn": rec.get("fn")}
-    if rec.get("fn") == "parse":
+    if rec.get("fn") in ("parse", "keyobj"):
         cls["kind"] = rec.get("kind")
         cls["be"] = rec.get("be")
     else:
@@ -25,6 +25,9 @@ def corrupt(rec, rng):
         return rec
     if rec["fn"] == "enc" and rec["out"]:
         rec["out"][-1] = 65 if rec["out"][-1] != 65 else 66
+        return rec
+    if rec["fn"] == "keyobj" and not rec["ok"] and len(rec["in"]) == 32 and rng.random() < 0.2:
+        rec["ok"], rec["out"] = True, rec["in"]
         return rec
     if rec["fn"] == "parse" and rec["ok"] and rng.random() < 0.3:
         rec["ser"] = rec["ser"] + [46]
